@@ -54,7 +54,7 @@ class Op:
     """
 
     def __init__(self, name, impl, to_model=None, compare=None, holds=None, determined=True,
-                 nontrivial=None, mode="exact", model_op=None):
+                 nontrivial=None, mode="exact", model_op=None, shrink=False, valid=None):
         self.name = name
         self.impl = impl
         self.to_model = to_model or (lambda x: x)
@@ -64,6 +64,8 @@ class Op:
         self.nontrivial = nontrivial or (lambda inp, out: not (isinstance(out, dict) and "raise" in out))
         self.mode = mode
         self.model_op = model_op or name
+        self.shrink = shrink      # opt-in greedy shrinking of a failing input (needs `valid` if the
+        self.valid = valid        # property's quantifier restricts inputs: valid(inp) -> bool)
 
 
 class Failure:
@@ -109,6 +111,7 @@ class Ctx:
         self.symbolic_ties = {}
         self.known_seen = []
         self.searching = False
+        self.pre_failed = []         # obligations / stages that could not even be generated
 
     # ------------------------------------------------------------------ model access
     def model(self, op, args):
@@ -188,6 +191,53 @@ class Ctx:
         self.failures.extend(new_failures)
         return new_failures
 
+    def probe(self, op: Op, inp):
+        """judge one input without recording anything: returns a Failure or None"""
+        try:
+            io = op.impl(inp)
+        except InfraError:
+            raise
+        except Exception as e:  # noqa: BLE001
+            io = canon_exc(e)
+        mo = self.model(op.model_op, op.to_model(inp))
+        if op.holds is not None:
+            msg = op.holds(self, inp, io)
+            if msg:
+                return Failure("property", op.name, inp, io, mo, msg)
+        if op.compare is not None:
+            msg = op.compare(inp, io, mo)
+        else:
+            msg = None if io == mo else "implementation and model disagree"
+        if msg:
+            return Failure("property" if op.determined else "correspondence", op.name, inp, io, mo, msg)
+        return None
+
+    def shrink(self, op: Op, failure, budget=200):
+        """greedy structural shrinking that keeps the failure kind (opt-in per Op)"""
+        cur = failure
+        improved = True
+        while improved and budget > 0:
+            improved = False
+            for cand in _shrink_candidates(cur.inp):
+                if budget <= 0:
+                    break
+                if op.valid is not None:
+                    try:
+                        if not op.valid(cand):
+                            continue
+                    except Exception:  # noqa: BLE001
+                        continue
+                budget -= 1
+                try:
+                    f = self.probe(op, cand)
+                except InfraError:
+                    continue
+                if f is not None and f.kind == failure.kind:
+                    cur = f
+                    improved = True
+                    break
+        return cur
+
     def run_corpus(self, ops):
         """minimised past failures and hand-written corner cases (corpus/<id>/*.json) run first"""
         d = os.path.join(VERIF, "corpus", self.pid)
@@ -215,9 +265,45 @@ class Ctx:
         self.failures.append(f)
         return f
 
+    # ------------------------------------------------------------------ robustness against code changes
+    def stage(self, name, fn, *args, **kw):
+        """Run one stage of a check.  If the harness itself crashes (typically because the code under
+        test changed shape: a renamed table, a new argument, a stub that no longer fits), that tie is
+        *not re-established*: it is recorded as a broken obligation and the remaining stages still run.
+        Never let such a crash end the check without a verdict."""
+        try:
+            return fn(*args, **kw)
+        except InfraError:
+            raise
+        except Exception as e:  # noqa: BLE001
+            self.pre_failed.append(name)
+            self.fail("obligation", name, detail=f"stage `{name}` could not be carried out: {e!r}",
+                      extra={"traceback": traceback.format_exc()[-1500:]})
+            return None
+
     # ------------------------------------------------------------------ obligations (ties 1 and 1b)
     def obligation(self, name, lean_src, meta=None):
         self.obligations.append((name, lean_src, meta or {}))
+
+    def sym_tie(self, name, fn, variables, ret_type, model_term, tactic=None, unfolds=(), meta=None,
+                catch=(ValueError,)):
+        """Tie 1b in one call: trace `fn` symbolically, emit `def name`, register the obligation
+        `∀ vars, name vars = model_term`.  A trace that fails (stub no longer fits the code, the code
+        became untraceable) is a broken obligation, not a crash."""
+        from . import symtrace as st
+        try:
+            src, tree, n = st.extract(name, fn, variables, ret_type, catch=catch)
+        except InfraError:
+            raise
+        except Exception as e:  # noqa: BLE001
+            self.symbolic_ties[name] = {"error": repr(e)[:300]}
+            self.pre_failed.append(name)
+            self.fail("obligation", name, detail=f"symbolic trace of the current source failed: {e!r}",
+                      extra=dict(meta or {}))
+            return None
+        self.symbolic_ties[name] = {"paths": n}
+        self.obligation(name, st.tie_obligation(name, src, variables, model_term, unfolds, tactic=tactic), meta)
+        return tree
 
     def discharge(self, imports):
         """Elaborate every registered obligation in one throw-away file."""
@@ -271,6 +357,35 @@ class Ctx:
         self.audited = ok
         for p in problems:
             self.fail("audit", "theorem", detail=p)
+
+
+_RAT_RE = None
+
+
+def _shrink_candidates(x):
+    """structurally smaller variants of a JSON value (lists shortened, rationals simplified)"""
+    import re
+    global _RAT_RE
+    if _RAT_RE is None:
+        _RAT_RE = re.compile(r"^-?\d+(/\d+)?$")
+    if isinstance(x, dict):
+        for k, v in x.items():
+            for c in _shrink_candidates(v):
+                y = dict(x)
+                y[k] = c
+                yield y
+    elif isinstance(x, list):
+        for i in range(len(x)):
+            yield x[:i] + x[i + 1:]
+        for i, v in enumerate(x):
+            for c in _shrink_candidates(v):
+                yield x[:i] + [c] + x[i + 1:]
+    elif isinstance(x, str) and _RAT_RE.match(x) and x not in ("0", "1"):
+        from fractions import Fraction
+        q = Fraction(x)
+        for c in ("0", "1", str(int(q)), str(Fraction(round(q * 2), 2)), str(Fraction(round(q * 8), 8))):
+            if c != x:
+                yield c
 
 
 def _ident(s):
@@ -365,6 +480,12 @@ def finish(ctx, replay_mode=False):
         for f in concrete:
             sigs.setdefault((f.op, f.detail[:60]), f)
         for i, f in enumerate(list(sigs.values())[:5]):
+            op = getattr(mod, "OPS", {}).get(f.op)
+            if op is not None and op.shrink and not replay_mode:
+                try:
+                    f = ctx.shrink(op, f)
+                except Exception as e:  # noqa: BLE001
+                    ctx.note("shrinking crashed: %r" % (e,))
             path = write_replay(ctx, f, i)
             lines.append(f"VIOLATION property={ctx.pid} replay={path}")
             violations += 1
@@ -393,7 +514,7 @@ def finish(ctx, replay_mode=False):
 def write_evidence(ctx, violations):
     mod = ctx.mod
     n_thm = len(mod.THEOREMS)
-    n_obl = len(ctx.obligations)
+    n_obl = len(ctx.obligations) + len(ctx.pre_failed)
     discharged = len(ctx.audited) + sum(1 for v in ctx.obl_results.values() if v)
     samples = list(ctx.samples[:12])
     for t, info in list(ctx.audited.items())[:3]:
@@ -451,7 +572,7 @@ def run_check(mod, tier, seed, replay=None):
         ctx.audit()
         if tier == "thorough":
             thorough_extras(ctx)
-        mod.run(ctx)
+        ctx.stage("run", mod.run, ctx)      # backstop: a crashing check is a broken tie, not "no verdict"
         return finish(ctx)
     except InfraError as e:
         print("INFRASTRUCTURE ERROR:", e, file=sys.stderr)
